@@ -169,6 +169,12 @@ def tokens(fb, fn_key):
                 if st[0] != "=":
                     continue
                 rv = st[2]
+                # state-machine updates: a constant stored into a named field (through self or a pin projection)
+                flds = [p for p in st[1][1] if isinstance(p, list) and p[0] == "f"]
+                if flds and st[1][0] != 0 and not flds[-1][2].isdigit() and rv[0] == "use":
+                    cv = C.eval_const(f, rv[1])
+                    if cv is not None and not flds[-1][3].startswith(("core::", "std::", "alloc::", "(tuple)")):
+                        toks[("store", flds[-1][2], cv)] += 1
                 if rv[0] == "agg" and rv[1] == "adt":
                     name, variant = rv[2], rv[3]
                     if name.endswith("io::error::ErrorKind"):
@@ -232,7 +238,22 @@ def pairs(fb):
             out.append((k, s))
         else:
             unpaired.append(k)
-    return out, unpaired
+    # hand-written poll_* trait methods pair with the blocking method of the same-path sync type
+    sync_methods = {}
+    for k, f in fb.fns.items():
+        if "r#async::" in k or f.is_closure or not f.trait_item or not k.startswith("<noodles_"):
+            continue
+        sync_methods[(owner_of(k), k.split("::")[-1])] = k
+    still = []
+    for k in unpaired:
+        last = k.split("::")[-1]
+        if k.startswith("<noodles_") and last.startswith("poll_"):
+            cand = sync_methods.get((owner_of(k), last[5:]))
+            if cand:
+                out.append((k, cand))
+                continue
+        still.append(k)
+    return out, still
 
 
 def diff(fb, akey, skey):
@@ -242,7 +263,7 @@ def diff(fb, akey, skey):
     return only_a, only_s, ta, ts
 
 
-COUNTED = ("io", "try_from", "conv")
+COUNTED = ("io", "try_from", "conv", "store")
 
 
 def _counted(toks):
@@ -290,6 +311,7 @@ def group_diff(fb, akeys, skeys, mods):
         t, r = region_tokens(fb, k, mods)
         ts.update(t)
         rs += r
-    only_a = sorted(set(ta) - set(ts), key=str)
-    only_s = sorted(set(ts) - set(ta), key=str)
+    sa, ss = _counted(ta), _counted(ts)
+    only_a = sorted(sa - ss, key=str)
+    only_s = sorted(ss - sa, key=str)
     return only_a, only_s, ra, rs
